@@ -105,7 +105,13 @@ def make_world(hname):
     t = threading.Thread(target=gone)
     t.start()
     t.join()
-    return HARNESSES[hname]()
+    # The launching thread uses scopes itself and starts its workers inside copies of its own context (this is what
+    # asyncio.to_thread and executors that propagate context do): the copies are taken while a scope is active.
+    import contextvars  # pylint: disable=import-outside-toplevel
+    bodies = HARNESSES[hname]()
+    with gin.config_scope('launcher'):
+      ctxs = [contextvars.copy_context() for _ in bodies]
+    return [(lambda b=b, c=c: c.run(b)) for b, c in zip(bodies, ctxs)]
   return make
 
 
@@ -121,6 +127,28 @@ def reference(hname):
         raise RuntimeError('sequential run of %s raised %r' % (hname, o['e']))
     _REF[hname] = [o['r'] for o in outs]
   return _REF[hname]
+
+
+def check_reference(hname, res):
+  """Absolute part of the oracle: what a body observes in a fresh thread (its very first scope operation may be a list
+  entry, a scoped selector, ...) is what it observes in a thread that has been using scopes all along (this one)."""
+  ref = reference(hname)
+  harness.hard_reset()
+  gin.parse_config(CONFIG)
+  gin.current_scope()
+  here = []
+  for b in HARNESSES[hname]():
+    try:
+      here.append(b())
+    except Exception as e:  # pylint: disable=broad-except
+      here.append('raised %r' % (e,))
+  harness.hard_reset()
+  res.case(('thr_reference', hname), True)
+  if here != ref:
+    res.violation('fresh_thread_differs', '%s: run alone in a fresh thread the bodies observe %r; in a thread that has used '
+                  'scopes before they observe %r' % (hname, ref, here), {'harness': hname, 'reference_only': True})
+  else:
+    res.w('fresh_thread_same_as_seasoned')
 
 
 def oracle(hname, x, res, gran):
@@ -175,6 +203,8 @@ def _node_task(args):
 def run_threads(ctx, res):
   sched.install_model_locks()
   t0 = time.time()
+  for hname in sorted({h for h, _, _ in plan(ctx.tier)}):
+    check_reference(hname, res)
   for hname, bnd, gran in plan(ctx.tier):
     reference(hname)
     r = core.Result()
@@ -193,6 +223,9 @@ def replay(obj):
   res = core.Result()
   sched.install_model_locks()
   hname = obj['harness']
+  if obj.get('reference_only'):
+    check_reference(hname, res)
+    return res
   reference(hname)
   x = sched.Sched(make_world(hname)(), [tuple(d) for d in obj['schedule']], obj.get('granularity', 'shared')).run()
   oracle(hname, x, res, obj.get('granularity', 'shared'))
